@@ -34,6 +34,9 @@
 //!   k SIG K              `kill -s SIG $jK`   SIG ∈ HUP INT QUIT KILL TERM USR1 STOP CONT
 //!   tw SIG N             `trap 'echo trapsig' SIG; ( nap 100; kill -s SIG $$; nap 100; exit N ) & wait $!`
 //!                        (the `wait` is interrupted by the trapped signal: status 384+SIG, trap run first)
+//!   tk SIG MS N          `trap 'echo trapsig' SIG; nap MS N & kill -s SIG $!`  (the child inherits SIG blocked; the
+//!                        signal is pending until the child's entry step unblocks it, where it kills the child)
+//!   tkg SIG MS N         the same with `( exit 0 )` between the fork and the kill (either order of kill and entry step)
 //!   ti                   `trap '' USR2; kill -s USR2 $$`
 //!   scp N                the same with `nap 300 N | drain` (the first member of a pipeline is stopped and continued)
 //!   sc N                 (first statement only) a foreground `( nap 300; exit N )` stopped and continued by a
@@ -478,6 +481,22 @@ fn render_stmt(t: &str, nasync: &mut usize) -> Option<String> {
                 *nasync
             )
         }
+        [t @ ("tk" | "tkg"), sig, ms, n] if SIGNALS.contains(sig) => {
+            // the shell traps SIG (caught + blocked, inherited blocked by the child), forks a napping job and
+            // sends it SIG: at once (`tk`: before the child's first step, the signal stays pending until the
+            // child's entry step resets the trap and unblocks it) or after a foreground command (`tkg`: before
+            // or after the child's first step, depending on the schedule)
+            *nasync += 1;
+            format!(
+                "trap 'echo trap{}' {sig}\nnap {} {} & j{}=$!\n{}kill -s {sig} $j{}",
+                sig.to_lowercase(),
+                ms.parse::<u32>().ok().filter(|m| *m <= 100000)?,
+                num(n)?,
+                *nasync,
+                if *t == "tkg" { "( exit 0 )\n" } else { "" },
+                *nasync
+            )
+        }
         ["ti"] => "trap '' USR2; kill -s USR2 $$".to_string(),
         ["gj", k] => format!("( wait $j{} )", k.parse::<usize>().ok().filter(|k| *k >= 1 && *k <= *nasync)?),
         ["wx"] => "wait -x".to_string(),
@@ -778,7 +797,36 @@ fn gen_jobs_program(r: &mut Rng, thorough: bool) -> String {
                 new_job(&mut jobs, &mut epoch, JKind::Other, monitor);
                 format!("tw {} {st}", r.pick(&["USR1", "INT", "TERM", "HUP"]))
             }
-            12 if r.chance(1, 2) => (if r.chance(1, 2) { "ti" } else { "wx" }).to_string(),
+            12 if nopen < 3 && r.chance(2, 3) => {
+                // a trapped signal sent to a freshly forked job; often waited for at once, with nothing else going on
+                let sig = *r.pick(&["USR1", "TERM", "HUP", "INT", "QUIT"]);
+                let gap = r.chance(1, 2);
+                if gap {
+                    for j in jobs.iter_mut() {
+                        j.fresh = j.fresh && j.stopped;
+                    }
+                }
+                new_job(&mut jobs, &mut epoch, JKind::Nap, monitor);
+                let k = jobs.len();
+                let dies = !(matches!(sig, "INT" | "QUIT") && !monitor);
+                jobs[k - 1].fresh = !dies;
+                stmts.push(format!("{} {sig} {} {st}", if gap { "tkg" } else { "tk" }, 1000 * k));
+                if r.chance(2, 3) {
+                    for j in jobs.iter_mut() {
+                        j.fresh = false;
+                    }
+                    jobs[k - 1].open = false;
+                    if jobs.iter().all(|j| !j.open) {
+                        epoch.clear();
+                        clean = true;
+                    } else {
+                        clean = false;
+                    }
+                    stmts.push(format!("wj {k}"));
+                }
+                continue;
+            }
+            12 => (if r.chance(1, 2) { "ti" } else { "wx" }).to_string(),
             13 if !jobs.is_empty() => format!("gj {}", 1 + r.below(jobs.len())),
             14 => {
                 monitor = !monitor;
@@ -973,7 +1021,13 @@ fn gen_program(r: &mut Rng, thorough: bool) -> String {
     stmts.join("; ")
 }
 
-const FIXED_PROGRAMS: [&str; 28] = [
+const FIXED_PROGRAMS: [&str; 34] = [
+    "tk USR1 1000 4; wj 1; w",
+    "tkg USR1 1000 4; wj 1; w",
+    "tk TERM 1000 4; w",
+    "tkg HUP 1000 7; wj 1; tk HUP 2000 3; wj 2; w",
+    "tk INT 1000 5; wj 1; m1; tk INT 2000 6; wj 2; w",
+    "tw USR1 6; bn 2000 3; k USR1 2; wj 2; wj 1; w",
     "fp w4096 s7",
     "pf1; fp w4096 s0; pf0; fp w4096 s0",
     "fp w1024 t1024.3; fp w1025 t1025.0; fp w2049 d",
